@@ -46,7 +46,7 @@ from mbv.harness import Check, MachineryError, main   # noqa: E402
 
 NPROC = 16
 TOYS = ('complete', 'incomplete', 'rolemix', 'stale')
-NRUN = {'quick': 4, 'thorough': 48}
+NRUN = {'quick': 4, 'thorough': 96}
 RUN_PARALLEL = {'quick': 4, 'thorough': 12}
 BIG = 300          # option products above this are thinned in quick
 
@@ -317,13 +317,14 @@ def judge(chk, cases_by_id, traces, verdicts, seen_viol):
                 setup=t['setup'], gen=t['gen'], run=t['run']))
 
 
-def pick_runs(chk, cases, traces, verdicts, n, rng):
+def pick_runs(chk, cases, traces, verdicts, n, rng, skip=()):
     """Configurations for the compile + 3-step run: only ones whose Complete
     clause TLC established and whose code was generated; seed-rotated over
     the schemes, distinct abstractions."""
     ok = {}
     for c, t, r in zip(cases, traces, verdicts):
-        if r['v']['failed'] or not t['gen']['ok'] or c['chooser']:
+        if r['v']['failed'] or not t['gen']['ok'] or c['chooser'] \
+                or t['scheme'] in skip:
             continue
         ok.setdefault(t['scheme'], []).append(c)
     schemes = sorted(ok)
@@ -344,7 +345,7 @@ def pick_runs(chk, cases, traces, verdicts, n, rng):
     return out
 
 
-# -- selftest -------------------------------------------------------------------
+# -- selftest ---------------------------------------------------------------
 def selftest(chk, cases, known_ids):
     """The binding must be live: corrupt one recorded field of a real trace
     (remove a property from an array's name set) - the verdict must name
@@ -393,7 +394,7 @@ def selftest(chk, cases, known_ids):
     sys.exit(0)
 
 
-# -- main -------------------------------------------------------------------------
+# -- main -------------------------------------------------------------------
 def run():
     chk = Check('C12', 'model_checking')
     try:
@@ -449,8 +450,11 @@ def check(chk):
 
     # ---- compile + run, only where TLC established Complete ----------------
     t1 = time.time()
+    norun = {s['name']: s['run_requires_missing']
+             for s in listing['schemes'] if s['run_requires_missing']}
     if not chk.args.replay:
-        runs = pick_runs(chk, cases, traces, verdicts, NRUN[chk.tier], rng)
+        runs = pick_runs(chk, cases, traces, verdicts, NRUN[chk.tier], rng,
+                         skip=norun)
     else:
         okc = [c for c, r in zip(cases, verdicts)
                if 'Complete' not in r['v']['failed'] and
@@ -474,7 +478,7 @@ def check(chk):
         judge(chk, {c['id']: c for c in runs}, rtraces, rverdicts, seen)
     phase['compile_and_run'] = round(time.time() - t1, 1)
 
-    # ---- evidence --------------------------------------------------------------
+    # ---- evidence ----------------------------------------------------------
     per_scheme = {}
     keys = set()
     fails = {}
@@ -556,6 +560,8 @@ def check(chk):
                                           if t['gen']['ok']),
         configurations_compiled_and_run=len(rtraces),
         runs=run_info,
+        run_leg_unavailable={k: 'needs %s (not installed)' % ', '.join(v)
+                             for k, v in norun.items()},
         failed_clause_counts=fails,
         known_ids_that_may_mask=known_ids,
         phase_s=phase,
